@@ -23,8 +23,10 @@ type Clause struct {
 }
 
 type LoopSpec struct {
-	Invs []*Clause
-	Decr *Clause
+	Invs        []*Clause
+	Decr        *Clause
+	Modifies    []*Clause
+	HasModifies bool
 }
 
 type AssertSpec struct {
@@ -49,6 +51,7 @@ type FuncSpec struct {
 	Pure        bool // modifies nothing
 	Inline      bool
 	Overflow    bool
+	AllocBound  bool
 	NoPanicOnly bool
 	Uses        []string
 	Ghost       map[string]string // ghost locals (unused for now)
@@ -208,6 +211,8 @@ func parseContractFile(path, pkgPath string, ps *PkgSpec) error {
 						cur.Inline = true
 					case "overflow":
 						cur.Overflow = true
+					case "allocbound":
+						cur.AllocBound = true
 					case "nocover":
 						cur.Covers = false
 					default:
@@ -231,8 +236,13 @@ func parseContractFile(path, pkgPath string, ps *PkgSpec) error {
 				case "ensures":
 					cur.Ensures = append(cur.Ensures, cl)
 				case "modifies":
-					cur.HasModifies = true
-					cur.Modifies = append(cur.Modifies, cl)
+					if curLoop != nil {
+						curLoop.HasModifies = true
+						curLoop.Modifies = append(curLoop.Modifies, cl)
+					} else {
+						cur.HasModifies = true
+						cur.Modifies = append(cur.Modifies, cl)
+					}
 				case "invariant":
 					if curLoop == nil {
 						return fmt.Errorf("%s:%d: invariant outside loop", path, lineNo)
